@@ -53,6 +53,10 @@ def _msg_classes():
         class C20Foreign(object):
             pass
 
+        # a message that is FALSY (a container-like message with nothing in it): still a message of its class
+        C20MsgA.__len__ = lambda self: 0
+        C20MsgD.__bool__ = lambda self: False
+
         _CLASSES = ([C20MsgA, C20MsgB, C20MsgC, C20MsgD, C20MsgE], C20Foreign)
     return _CLASSES
 
@@ -429,6 +433,48 @@ def run_case(r, kind, counters, trace):
                 return viol("sole-owner-handler-not-invoked", "dispatch(%s) to a resource only the dispatcher refers to: calls %r, expected %s" % (
                     name, [(c_[1]) for c_ in calls], mname))
             counters.inc("sole_owner_dispatch_ok")
+    # string annotations as "from __future__ import annotations" leaves them for a qualified or quoted name ("pkg.mod.Name", "'Name'"):
+    # whether register() makes sense of them is not specified (probed: either answer is accepted); what unregister(resource) means is -
+    # afterwards the handler is not invoked and the resource can be registered again
+    if r.random() < 0.25:
+        disp3 = D.ServerMessageDispatcher() if kind == "server" else D.ClientMessageDispatcher()
+        cls_q = r.choice(classes)
+        ann_q = r.choice(["messages.%s", "pkg.sub.%s", "'%s'", '"%s"', " %s", "%s "]) % cls_q.__name__
+        tok_q = [None]
+        hq = _handler(kind, "on_qualified", ann_q, calls, tok_q)
+        RQ = type("ResQ", (object,), {"on_qualified": hq})
+        resq = RQ()
+        tok_q[0] = id(resq)
+        from mpgameserver import SeqNum as _SNq
+        args_q = (object(), _SNq(3), cls_q()) if kind == "server" else (_SNq(3), cls_q())
+        trace.append("qualified-annotation(%r)" % ann_q)
+        try:
+            disp3.register(resq)
+            calls.clear()
+            try:
+                disp3.dispatch(*args_q)
+            except D.DispatchError:
+                pass
+            counters.inc("qualified_annotation_" + ("understood" if calls else "not_understood"))
+            disp3.unregister(resq)
+            calls.clear()
+            raised_q = False
+            try:
+                disp3.dispatch(*args_q)
+            except D.DispatchError:
+                raised_q = True
+            if calls or not raised_q:
+                return viol("dispatch-after-unregister", "a handler annotated %r: after unregister(resource) dispatch(%s) %s" % (
+                    ann_q, cls_q.__name__, "still invokes it" if calls else "raises nothing"))
+            try:
+                disp3.register(resq)
+            except Exception as e:
+                return viol("reregister-refused", "a handler annotated %r: register(resource) after unregister(resource) raised %r" % (ann_q, e))
+            counters.inc("qualified_annotation_cycles")
+        except D.DispatchError:
+            counters.inc("qualified_annotation_refused_at_register")
+        except Exception as e:
+            counters.inc("qualified_annotation_refused_at_register")
     # final sweep: probe every class
     for cls in classes:
         trace.append("final-dispatch(%s)" % cls.__name__)
@@ -471,7 +517,7 @@ def run_shard(cfg):
 def finish(tier, seed, results):
     m = merge(results)
     inconclusive = []
-    need(m["counters"], ["sole_owner_dispatch_ok", "dispatch_with_raising_handler", "reentrant_dispatches", "dispatch_registered_ok", "dispatch_unregistered_ok", "duplicate_register",
+    need(m["counters"], ["sole_owner_dispatch_ok", "dispatch_with_raising_handler", "reentrant_dispatches", "qualified_annotation_cycles", "dispatch_registered_ok", "dispatch_unregistered_ok", "duplicate_register",
                          "unregister", "register"], inconclusive)
     cov = {
         "evaluations": m["evaluations"],
